@@ -134,6 +134,7 @@ fn run_spec(spec: &Spec) -> common::Report {
         "sock-unbuf" => sock::unbuffered(spec),
         "sock-buf" => sock::buffered(spec),
         "sock-conn" => sock::connected_udp(spec),
+        "sock-rebind" => sock::rebind_and_unwind(spec),
         "sock-faults" => sock::stats_faults(spec),
         "spyq" => sock::spy_bounded(spec),
         "sock-volume" => sock::stats_volume(spec),
